@@ -258,7 +258,7 @@ theorem rankedNextGo_subset (frm : Option Cand) (allowed : List Cand) (take : Bo
       · split at hx
         · have := (List.mem_filter.mp hx).2; simpa using this
         · exact ih _ x hx
-      · split at hx <;> first | exact ih _ x hx | (split at hx <;> exact ih _ x hx)
+      · exact ih _ x hx
 
 theorem rankedNext_subset (b : Ballot) (frm : Option Cand) (allowed : List Cand) :
     ∀ x ∈ rankedNext b frm allowed, x ∈ allowed := rankedNextGo_subset _ _ _ _
